@@ -50,6 +50,23 @@ pub fn run_plan_inline(plan: &Plan, verbose: bool) -> Report {
     run_plan_here(plan, verbose)
 }
 
+/// Like `install_panic_hook` but also prints the message (for the Miri binary, where the
+/// message is the report).
+pub fn install_panic_hook_verbose() {
+    std::panic::set_hook(Box::new(|info| {
+        let loc = info.location().map(|l| format!("{}:{}", l.file(), l.line())).unwrap_or_default();
+        let msg = if let Some(s) = info.payload().downcast_ref::<&str>() {
+            s.to_string()
+        } else if let Some(s) = info.payload().downcast_ref::<String>() {
+            s.clone()
+        } else {
+            "<non-string panic>".into()
+        };
+        eprintln!("PANIC {} at {}", msg, loc);
+        let _ = LAST_PANIC.try_with(|p| *p.borrow_mut() = Some((loc, msg)));
+    }));
+}
+
 fn take_panic() -> (String, String) {
     LAST_PANIC
         .with(|p| p.borrow_mut().take())
@@ -62,7 +79,13 @@ fn short_loc(loc: &str) -> String {
     match loc.rfind("/src/") {
         Some(i) => {
             let head = &loc[..i];
-            let krate = head.rsplit('/').next().unwrap_or("");
+            // dependencies keep their crate directory name; the crate under test is always
+            // "asefile" wherever its sources are mounted (scratch worktrees)
+            let krate = if head.contains("/registry/") || head.contains("/rustc/") || head.contains("/rustlib/") {
+                head.rsplit('/').next().unwrap_or("")
+            } else {
+                "asefile"
+            };
             format!("{}{}", krate, &loc[i..])
         }
         None => loc.to_string(),
